@@ -90,6 +90,9 @@ func TestVerifReplay(t *testing.T) {
 			} else if tape != nil && len(tape) > 0 && tape[0] == 0 {
 				// every attempt was the candidate made of the first alphabet character; any run of 6 equal characters betrays it
 				cands = append(cands, "aaaaaa", "qqqqqq", "AAAAAA")
+				if run := c18Run(out, 6); run != "" {
+					cands = append(cands, run)
+				}
 			}
 			for _, s := range append(secrets, cands...) {
 				if s != "" && strings.Contains(out, s) {
@@ -113,4 +116,22 @@ func c18Head(s string) string {
 		return s[:300]
 	}
 	return s
+}
+
+// c18Run returns a run of n equal letters or digits in s, if there is one (on the all-zero stream every
+// rejected candidate is one alphabet character repeated; which character depends on Go's map order).
+func c18Run(s string, n int) string {
+	rs := []rune(s)
+	k := 1
+	for i := 1; i < len(rs); i++ {
+		if rs[i] == rs[i-1] && (rs[i] >= 'a' && rs[i] <= 'z' || rs[i] >= 'A' && rs[i] <= 'Z' || rs[i] >= '0' && rs[i] <= '9') {
+			k++
+			if k >= n {
+				return string(rs[i-n+1 : i+1])
+			}
+		} else {
+			k = 1
+		}
+	}
+	return ""
 }
